@@ -290,7 +290,10 @@ def gen_single(rng):
         return AssignFunctionCall(("r1",), "<func>f", tuple(arg() for _ in range(rng.choice([0, 1, 2]))),
                                   {k: arg() for k in kws}, **kw)
     if kind == "yield":
-        time = rng.choice([["var", "only_in_time"], ["+", ["var", "<t>"], ["var", "<dt>"]], ["num", 0]])
+        time = rng.choice([["var", "only_in_time"], ["+", ["var", "<t>"], ["var", "<dt>"]], ["num", 0],
+                           # a time held in a variable that nothing has set in this state (the evaluator answers
+                           # None for it): whatever the interpreter does then, it may only read what is declared
+                           ["var", "t_unset"]])
         return YieldState(expression=arg(), component_id="y", time=to_pym(time),
                           time_id="fin", **kw)
     if kind == "fail":
